@@ -59,6 +59,10 @@ def _run_task(task):
         return {"contract": cname, "instance": iname, "error": "checker-error: " + traceback.format_exc(), "obligations": 0, "discharged": 0, "failed": [], "undecided": [], "by_backend": {}, "inherited": [], "solver_s": {}, "wall_s": 0.0, "samples": [], "kernel_calls": {}, "prims_seen": {}, "selfcheck": {}, "num_eqns": 0, "assumptions_used": 0}
 
 
+def _error_result(task, msg):
+    return {"contract": task[1], "instance": task[2], "error": msg, "obligations": 0, "discharged": 0, "failed": [], "undecided": [], "by_backend": {}, "inherited": [], "solver_s": {}, "wall_s": 0.0, "samples": [], "kernel_calls": {}, "prims_seen": {}, "selfcheck": {}, "num_eqns": 0, "assumptions_used": 0}
+
+
 def load_known(pid):
     path = os.path.join(HERE, "known_findings.txt")
     findings = []
@@ -117,9 +121,20 @@ def main(argv=None):
     results = []
     if tasks:
         ctx = mp.get_context("spawn")
-        with ctx.Pool(min(args.jobs, len(tasks)), initializer=_worker_init) as pool:
-            for r in pool.imap_unordered(_run_task, tasks, chunksize=1):
-                results.append(r)
+        task_timeout = float(os.environ.get("VERIF_TASK_TIMEOUT", "600" if tier == "quick" else "3600"))
+        pool = ctx.Pool(min(args.jobs, len(tasks)), initializer=_worker_init, maxtasksperchild=8)
+        try:
+            pending = [(t, pool.apply_async(_run_task, (t,))) for t in tasks]
+            deadline = time.time() + task_timeout
+            for t, ar in pending:
+                try:
+                    results.append(ar.get(timeout=max(1.0, deadline - time.time())))
+                except mp.TimeoutError:
+                    results.append(_error_result(t, f"checker-error: verification unit did not finish within {task_timeout:.0f}s (undecided, not a violation)"))
+                except Exception as e:  # worker died
+                    results.append(_error_result(t, f"checker-error: worker failed: {e!r}"))
+        finally:
+            pool.terminate()
     if hasattr(mod, "extra_checks") and not args.only:
         extra_results = mod.extra_checks(tier, seed)
 
